@@ -69,25 +69,34 @@ theorem MaxIn_congr {h : Net} {a b : List PyId} (hab : Subs a b) (hba : Subs b a
   intro q hq hs x hx
   exact hab x (ha q hq (fun y hy => hs y (hab y hy)) x hx)
 
-/-- the test inside the loop of `maximal()` -/
-theorem maximal_test {h : Net} (hw : h.WF) {p : PyId × List PyId} (hp : p ∈ h.edges) (hne : p.2 ≠ []) :
-    ∃ s, interAll (p.2.map h.memberships) = some s ∧ (sameSet s (dupIds h p.2) = true ↔ MaxIn h p.2) := by
-  obtain ⟨s, hs, hmem⟩ := interAll_spec (l := p.2.map h.memberships) (by simpa using hne)
+/-- the test inside the loop of `maximal()` (`containing(e)`: for an empty edge every edge ID) -/
+theorem maximal_test {h : Net} (hw : h.WF) {p : PyId × List PyId} (hp : p ∈ h.edges) :
+    ∃ s, containing h p.2 = some s ∧ (sameSet s (dupIds h p.2) = true ↔ MaxIn h p.2) := by
+  have hkey : ∃ s, containing h p.2 = some s ∧ ∀ x, x ∈ s ↔ ∃ q ∈ h.edges, q.1 = x ∧ Subs p.2 q.2 := by
+    by_cases hne : p.2 = []
+    · refine ⟨h.edges.map (·.1), by simp [containing, hne], ?_⟩
+      intro x
+      simp only [List.mem_map, hne, Subs]
+      constructor
+      · rintro ⟨q, hq, rfl⟩; exact ⟨q, hq, rfl, by simp⟩
+      · rintro ⟨q, hq, rfl, _⟩; exact ⟨q, hq, rfl⟩
+    · obtain ⟨s, hs, hmem⟩ := interAll_spec (l := p.2.map h.memberships) (by simpa using hne)
+      refine ⟨s, by simp [containing, hne, hs], ?_⟩
+      intro x
+      rw [hmem]
+      simp only [List.mem_map, forall_exists_index, and_imp, forall_apply_eq_imp_iff₂, mem_memberships]
+      constructor
+      · intro hall
+        obtain ⟨n0, hn0⟩ := List.exists_mem_of_ne_nil _ hne
+        obtain ⟨q, hq, rfl, _⟩ := hall n0 hn0
+        refine ⟨q, hq, rfl, ?_⟩
+        intro n hn
+        obtain ⟨q', hq', e, hn'⟩ := hall n hn
+        rw [← edge_unique hw hq' hq e]; exact hn'
+      · rintro ⟨q, hq, rfl, hsub⟩ n hn
+        exact ⟨q, hq, rfl, hsub n hn⟩
+  obtain ⟨s, hs, key⟩ := hkey
   refine ⟨s, hs, ?_⟩
-  have key : ∀ x, x ∈ s ↔ ∃ q ∈ h.edges, q.1 = x ∧ Subs p.2 q.2 := by
-    intro x
-    rw [hmem]
-    simp only [List.mem_map, forall_exists_index, and_imp, forall_apply_eq_imp_iff₂, mem_memberships]
-    constructor
-    · intro hall
-      obtain ⟨n0, hn0⟩ := List.exists_mem_of_ne_nil _ hne
-      obtain ⟨q, hq, rfl, _⟩ := hall n0 hn0
-      refine ⟨q, hq, rfl, ?_⟩
-      intro n hn
-      obtain ⟨q', hq', e, hn'⟩ := hall n hn
-      rw [← edge_unique hw hq' hq e]; exact hn'
-    · rintro ⟨q, hq, rfl, hsub⟩ n hn
-      exact ⟨q, hq, rfl, hsub n hn⟩
   rw [sameSet_iff]
   constructor
   · rintro ⟨h1, _⟩ q hq hsub
@@ -107,7 +116,7 @@ theorem maximal_test {h : Net} (hw : h.WF) {p : PyId × List PyId} (hp : p ∈ h
 /-- soundness of the accumulated `max_edges` -/
 def SoundMax (h : Net) (mx : List PyId) : Prop := ∀ i ∈ mx, ∃ q ∈ h.edges, q.1 = i ∧ MaxIn h q.2
 
-theorem maximal_fold {h : Net} (hw : h.WF) (hne : ∀ p ∈ h.edges, p.2 ≠ []) (l : List (PyId × List PyId)) :
+theorem maximal_fold {h : Net} (hw : h.WF) (l : List (PyId × List PyId)) :
     ∀ (mx : List PyId), (∀ p ∈ l, p ∈ h.edges) → SoundMax h mx →
       ∃ mx', l.foldl (maximalStep h) (some mx) = some mx' ∧ SoundMax h mx' ∧ (∀ i ∈ mx, i ∈ mx') ∧
         (∀ q ∈ l, MaxIn h q.2 → q.1 ∈ mx') := by
@@ -127,7 +136,7 @@ theorem maximal_fold {h : Net} (hw : h.WF) (hne : ∀ p ∈ h.edges, p.2 ≠ [])
       rcases List.mem_cons.mp hq with rfl | hq
       · exact h3 _ hin
       · exact h4 q hq hm
-    · obtain ⟨s, hs1, hs2⟩ := maximal_test hw hp (hne p hp)
+    · obtain ⟨s, hs1, hs2⟩ := maximal_test hw hp
       by_cases hm : MaxIn h p.2
       · have e : maximalStep h (some mx) p = some ((dupIds h p.2).foldl (fun a i => ins i a) mx) := by
           simp [maximalStep, hin, hs1, hs2.mpr hm]
@@ -159,9 +168,9 @@ theorem maximal_fold {h : Net} (hw : h.WF) (hne : ∀ p ∈ h.edges, p.2 ≠ [])
         · exact h4 q hq hmq
 
 /-- `H.edges.maximal()` of the transcription = the maximal edges of the definition -/
-theorem maximalEdges_eq {h : Net} (hw : h.WF) (hne : ∀ p ∈ h.edges, p.2 ≠ []) :
+theorem maximalEdges_eq {h : Net} (hw : h.WF) :
     maximalEdges h = some (specMaximal h) := by
-  obtain ⟨mx, h1, h2, _, h4⟩ := maximal_fold hw hne h.edges [] (fun _ hp => hp) (by intro i hi; simp at hi)
+  obtain ⟨mx, h1, h2, _, h4⟩ := maximal_fold hw h.edges [] (fun _ hp => hp) (by intro i hi; simp at hi)
   unfold maximalEdges maximalIds
   rw [h1]
   simp only [Option.map_some, specMaximal]
